@@ -318,6 +318,34 @@ func EmitBatch(progs []M) string {
 	return e.sb.String()
 }
 
+// NativePrelude is the observation prelude for the native Go backend comparison (C09): Int
+// observations only, no interpolation of `any` (the backend's subset).
+const NativePrelude = `def o(v: Int) then println v.to_string
+def t(s: String) then println s
+`
+
+// EmitBatchPlain is EmitBatch without the per-program do/catch wrapper and with the native prelude:
+// for programs that cannot throw, compiled by both back ends from the SAME source text.
+func EmitBatchPlain(progs []M) string {
+	e := &emitter{}
+	e.raw(NativePrelude)
+	for _, p := range progs {
+		e.suffix = fmt.Sprintf("_%d", p["id"].(int))
+		e.defs(p)
+	}
+	for _, p := range progs {
+		id := p["id"].(int)
+		e.w(0, fmt.Sprintf("t '%s'", Marker(id)))
+		e.w(0, fmt.Sprintf("r_%d := main__%d()", id, id))
+		e.w(0, "t 'ret'")
+		e.w(0, fmt.Sprintf("o(r_%d)", id))
+	}
+	return e.sb.String()
+}
+
+// SplitByMarker splits the stdout of a batch by program marker.
+func SplitByMarker(stdout string) map[int][]string { return splitByMarker(stdout) }
+
 // EmitUncaught prints one program whose main is called at top level without a handler, so that an
 // error propagates out of the program (C32: stack trace report).
 func EmitUncaught(p M) (src string, callLine int) {
